@@ -82,6 +82,27 @@ func discharge(ob *Obligation, query string, dir string, timeoutMs int, all bool
 	}
 	ob.Query = file
 	var results []solveResult
+	// first attempt: the query without the axioms of implementer kinds the
+	// goal does not reach; only `unsat` is believed from it
+	if pq := pruneKinds(query); len(pq) < len(query) {
+		pfile := strings.TrimSuffix(file, ".smt2") + ".pruned.smt2"
+		if os.WriteFile(pfile, []byte(pq), 0o644) == nil {
+			pt := timeoutMs
+			if pt > 6000 {
+				pt = 6000
+			}
+			pr := runSolver(solvers[0], pfile, pt)
+			if pr.verdict == "unsat" && !all {
+				ob.Verdict = "unsat"
+				ob.Millis = pr.millis
+				ob.Solver = fmt.Sprintf("%s [kind-pruned query: %s=unsat(%dms)]", pr.solver, pr.solver, pr.millis)
+				ob.Query = pfile
+				return
+			}
+			pr.solver += "/pruned"
+			results = append(results, pr)
+		}
+	}
 	r := runSolver(solvers[0], file, timeoutMs)
 	results = append(results, r)
 	if r.verdict != "unsat" || all {
